@@ -60,6 +60,10 @@ CHECKS = {
    text="The real SRF / RandMeth / IncomprRandMeth / Fourier code runs with a symbolic random-number layer (draws are fresh symbols named by the seed VALUE, the sub-stream and the draw index -- numpy's RandomState contract) and with the summation kernels interpreted from summator.pyx. Locality: for 3 symbolic points the value at a point is the same term under permutation, as a single point under another store name, in two batches and on a structured mesh vs the equivalent point list (dim 1-2, anisotropic/rotated in 2-D). Update logic: for every history of <=2 operations (call with seed A / B / no seed, in-place change of var, len_scale, anis, angles by symbolic amounts beyond the library's isclose tolerance, mode_no=, seed=, period=) the next field equals that of a freshly constructed generator with the final model, settings and the seed in effect (quick: all pairs in 1-D, geometric pairs in 2-D; thorough: length 3). Seed identity: the same history with the seed passed as one object vs equal distinct objects gives identical fields including nugget noise.",
    note="nothing is assumed about the law of the draws; emcee sampling is a stub returning symbolic radii; parameter changes inside the isclose tolerance of CovModel.__eq__ are by design not changes; two defects found and fixed (seed identity, stale Fourier grid).",
    technique="symbolic execution of generator call histories with a symbolic RNG + SMT equality against a fresh object", ref="DESIGN.md §4 C11"),
+ "C17": dict(engine="E1-symnp (+E2 via C15)", level="model_checking",
+   text="The real Fourier generator is constructed and updated on symbolic periods, anisotropy ratios, rotation angles and an arbitrary evaluation point (dim 1-3, 2-4 modes per axis); the solver decides delta_k = 2*pi/period*anis, every grid mode = (m - N/2)*delta_k in ij order, that a shift by period_a along the rotated main axis a is (period_a/anis_a) e_a in isotropic coordinates (trig ideal reduction) and hence that the phase of every mode changes by the integer multiple 2*pi*(m - N_a/2); the same after histories of <=2 operations over period=, mode_no=, in-place anisotropy / angle change and model re-assignment; odd mode numbers are rejected; np.arange lengths are proved per call.",
+   note="periodicity of the field then follows from the 2*pi-periodicity of sin/cos and the kernel's phase formula (C15); floating-point length of np.arange is outside; one defect found and fixed (stale grid after anisotropy change).",
+   technique="symbolic execution of generator construction/update histories + SMT on per-mode phase shifts with a trig-reduction lemma", ref="DESIGN.md §4 C17"),
 }
 
 PENDING_REASON = "check not built yet in this session (work in progress; see DESIGN.md §7 build order)"
